@@ -577,6 +577,39 @@ func Hazards(j *job.Job, s *job.Sink) {
 }
 
 // Lexical: pathological texts for the lexer and the generic parser.
+// Deep: texts nested so deeply that recursion proportional to nesting exhausts the
+// goroutine stack (recorded finding c01-nesting-depth-exhausts-the-stack). Two cases: a
+// module of 1.2 million nested containers (the syntax tree builder recurses once per
+// level), and 9 million nested generic statements (the parser does).
+func Deep(j *job.Job, s *job.Sink) {
+	for i := j.Start; i < j.Start+j.Count; i++ {
+		var t string
+		n := 0
+		switch i % 2 {
+		case 0:
+			n = 1200000
+			t = "module m { namespace \"urn:m\"; prefix m; " + strings.Repeat("container c { ", n) + strings.Repeat("} ", n) + "}"
+		default:
+			n = 9000000
+			t = strings.Repeat("a{", n) + strings.Repeat("}", n)
+		}
+		s.Current(i, map[string]any{"family": "deep", "nesting": n, "bytes": len(t), "shape": i % 2})
+		s.Count("cases", 1)
+		s.Count("deep_cases", 1)
+		// (loaded directly: printing a statement tree of this depth back, as the other
+		// families do, is quadratic in the depth by the nature of indentation)
+		if i%2 == 0 {
+			ms := yang.NewModules()
+			if err := ms.Parse(t, "deep.yang"); err == nil {
+				ms.Process()
+			}
+		} else {
+			yang.Parse(t, "deep.yang")
+		}
+		s.Count("deep_cases_survived", 1)
+	}
+}
+
 func Lexical(j *job.Job, s *job.Sink) {
 	limit := 64 << 10
 	if j.Tier == "thorough" {
